@@ -28,8 +28,9 @@
        (real_canon_invariant, real_canon_injective, from C07's print/parse round trip) on the domain
          in_domain d   every string and member name is UTF-8 without U+FFFD (encodeString refuses
                        anything else); every number text is canonical: an int64 as FormatInt prints
-                       it, or a float satisfying C07's float premise (float_okb) as
-                       Float.MarshalJSON prints it.
+                       it, or a float that Float.MarshalJSON's text reads back as exactly (float_exactb:
+                       C07's float premise without the dropped sign of zero) as Float.MarshalJSON
+                       prints it (so 0.0E0, never -0.0E0).
        No canon premise and no wf premise is left (both sorts are the same stable sort, so
        duplicate names do no harm); norm / wf correspond to C07's norm / dupfree
        (norm_corresponds, wf_corresponds).
